@@ -280,6 +280,25 @@ class BudgetExceeded(Exception):
     pass
 
 
+def import_all_puresnmp() -> None:
+    """Load every puresnmp module (plug-ins are imported lazily) so that module-level seams can be patched."""
+    import importlib
+    import pkgutil
+    for pkgname in ("puresnmp", "puresnmp.api", "puresnmp.plugins", "puresnmp_plugins.mpm", "puresnmp_plugins.security",
+                    "puresnmp_plugins.auth", "puresnmp_plugins.priv"):
+        try:
+            pkg = importlib.import_module(pkgname)
+        except ImportError:
+            continue
+        for info in pkgutil.iter_modules(pkg.__path__, pkgname + "."):
+            if "verifstream" in info.name or info.name.endswith("__main__"):
+                continue
+            try:
+                importlib.import_module(info.name)
+            except Exception:  # noqa: BLE001
+                pass
+
+
 class DecodeBudget:
     """
     Counts calls of x690's ``decode`` (every name it is bound to in x690 and
@@ -302,6 +321,7 @@ class DecodeBudget:
         import importlib
         import x690.types as xt
         import x690.util as xu
+        import_all_puresnmp()   # a module imported inside the block would keep the counting wrapper for good
         orig = xt.decode
         budget = self
 
